@@ -175,6 +175,10 @@ func (this *Hnsw) Remove(id uuid.UUID) error {
 		for l := vertex.level; l >= 0; l-- {
 			vertex.edgeMutexes[l].RLock()
 			for neighbor, distance := range vertex.edges[l] {
+				// Links may still point to removed items, the entrypoint must be a stored one
+				if neighbor.isDeleted() {
+					continue
+				}
 				if distance < minDistance {
 					minDistance = distance
 					closestNeighbor = neighbor
@@ -185,6 +189,11 @@ func (this *Hnsw) Remove(id uuid.UUID) error {
 			if closestNeighbor != nil {
 				break
 			}
+		}
+		if closestNeighbor == nil {
+			// All neighbors of the entrypoint are gone. Any other stored item will do,
+			// the index has no entrypoint only if it is empty.
+			closestNeighbor = this.anyVertex()
 		}
 		atomic.CompareAndSwapPointer(&this.entrypoint, currEntrypoint, unsafe.Pointer(closestNeighbor))
 	}
@@ -272,6 +281,19 @@ func (this *Hnsw) storeVertex(vertex *hnswVertex) error {
 	m[vertex.id] = vertex
 	atomic.AddUint64(&this.len, 1)
 	atomic.AddUint64(&this.bytesSize, vertex.bytesSize())
+	return nil
+}
+
+// Returns a stored vertex or nil if there is none
+func (this *Hnsw) anyVertex() *hnswVertex {
+	for i, m := range this.vertices {
+		this.verticesMu[i].RLock()
+		for _, vertex := range m {
+			this.verticesMu[i].RUnlock()
+			return vertex
+		}
+		this.verticesMu[i].RUnlock()
+	}
 	return nil
 }
 
